@@ -349,6 +349,12 @@ func c08Check(c c08Case) *evid.Fail {
 			}
 		case "restart_host":
 			h := e.Cluster.Host(a.Host % e.Cluster.NumHosts())
+			// A control connection that is still in its handshake (after an earlier restart) cannot be told from a pooled
+			// connection yet and may settle on another host afterwards: count only once the control connection is registered.
+			// (False alarm met in a thorough run on a busy machine: "no-reconnect ... 6 of 7 connections".)
+			for dl := time.Now().Add(posWait); len(e.Cluster.RegisteredConns()) == 0 && time.Now().Before(dl); {
+				time.Sleep(time.Millisecond)
+			}
 			want := 0
 			for _, cn := range h.Conns() {
 				if !cn.IsRegistered() { // the control connection fails over to another host
